@@ -21,8 +21,11 @@ CONSTANTS Writers,          \* continuity writers (threads of control calling th
           EnableBranch,     \* branch/handoff creates Child
           SidecarNextSeq,   \* TRUE = as implemented: next seq is recovered from the sidecar tail (D1)
           LineageLocked,    \* FALSE = as implemented: creation + lineage frame (literal seq 1) outside the mutex (D15)
-          SecondInput,      \* TRUE = as implemented: a session accepts a second input (D12)
-          Guarded           \* TRUE = as implemented: the seq mutex is held from choose to advance
+          SecondInput,      \* TRUE = as implemented (D12): a session accepts a second input
+          Guarded,          \* TRUE = as implemented: the seq mutex is held from choose to advance
+          Tasks,            \* task streams; each has two pumps (stdout/stderr) sharing one seq mutex
+          TaskGuarded,      \* TRUE = as implemented: the task seq mutex is held from numbering to the log append
+          Cold              \* TRUE: the authority starts with an empty next-seq map (after a restart)
 
 None == "none"
 Threads == {Root, Child}
@@ -36,8 +39,12 @@ VARIABLES log,      \* truth log: sequence of [s |-> stream, q |-> seq]
           up,       \* authority process is running
           acked,    \* acknowledged appends <<stream, seq>>
           crashes,
-          runs      \* per session: sequence of private counters of the runs started on it
-vars == <<log, side, next, mtx, pc, cur, exists, up, acked, crashes, runs>>
+          runs,     \* per session: sequence of private counters of the runs started on it
+          tseq,     \* per task: the shared seq counter
+          tmtx,     \* per task: holder of the task seq mutex (a pump or None)
+          pump      \* per <<task, pump>>: -1 idle, n = numbered frame n not yet in the log
+vars == <<log, side, next, mtx, pc, cur, exists, up, acked, crashes, runs, tseq, tmtx, pump>>
+Pumps == {"out", "err"}
 
 Proj(s)     == SelectSeq(log, LAMBDA f : f.s = s)
 TruthLen(s) == Len(Proj(s))
@@ -46,7 +53,7 @@ LoadNext(t) == IF SidecarNextSeq /\ side[t] # <<>> THEN LastOf(side[t]) + 1 ELSE
 
 Init == /\ log = <<[s |-> Root, q |-> 0]>>
         /\ side = [t \in Threads |-> IF t = Root THEN <<0>> ELSE <<>>]
-        /\ next = [t \in Threads |-> IF t = Root THEN 1 ELSE -1]
+        /\ next = [t \in Threads |-> IF t = Root /\ ~Cold THEN 1 ELSE -1]
         /\ mtx = None
         /\ pc = [w \in Writers |-> "idle"]
         /\ cur = [w \in Writers |-> [t |-> Root, q |-> -1]]
@@ -55,19 +62,35 @@ Init == /\ log = <<[s |-> Root, q |-> 0]>>
         /\ acked = {<<Root, 0>>}
         /\ crashes = 0
         /\ runs = [s \in Sessions |-> <<>>]
+        /\ tseq = [k \in Tasks |-> 0]
+        /\ tmtx = [k \in Tasks |-> None]
+        /\ pump = [k \in Tasks |-> [p \in Pumps |-> -1]]
 
 Room == Len(log) < MaxLog
 
 (* ---- the append_* family: one critical section under the seq mutex ---- *)
-Pre(w, t) ==
-    /\ up /\ pc[w] = "idle" /\ t \in exists /\ Room
+\* first use of a thread after a restart: the next seq is loaded while the mutex is held  -> "nextseq.loaded"
+Load(w, t) ==
+    /\ up /\ pc[w] = "idle" /\ t \in exists /\ Room /\ next[t] = -1
     /\ (Guarded => mtx = None)
-    /\ LET q == IF next[t] # -1 THEN next[t] ELSE LoadNext(t) IN
-       /\ next' = [next EXCEPT ![t] = q]
-       /\ cur'  = [cur EXCEPT ![w] = [t |-> t, q |-> q]]
+    /\ cur' = [cur EXCEPT ![w] = [t |-> t, q |-> LoadNext(t)]]
+    /\ mtx' = IF Guarded THEN w ELSE mtx
+    /\ pc' = [pc EXCEPT ![w] = "loaded"]
+    /\ UNCHANGED <<log, side, next, exists, up, acked, crashes, runs, tseq, tmtx, pump>>
+
+PreLoaded(w) ==
+    /\ pc[w] = "loaded"
+    /\ next' = [next EXCEPT ![cur[w].t] = cur[w].q]
+    /\ pc' = [pc EXCEPT ![w] = "pre"]
+    /\ UNCHANGED <<log, side, mtx, cur, exists, up, acked, crashes, runs, tseq, tmtx, pump>>
+
+Pre(w, t) ==
+    /\ up /\ pc[w] = "idle" /\ t \in exists /\ Room /\ next[t] # -1
+    /\ (Guarded => mtx = None)
+    /\ cur'  = [cur EXCEPT ![w] = [t |-> t, q |-> next[t]]]
     /\ mtx' = IF Guarded THEN w ELSE mtx
     /\ pc' = [pc EXCEPT ![w] = "pre"]
-    /\ UNCHANGED <<log, side, exists, up, acked, crashes, runs>>
+    /\ UNCHANGED <<log, side, next, exists, up, acked, crashes, runs, tseq, tmtx, pump>>
 
 Flush(w) ==
     /\ pc[w] \in {"pre", "lin_pre", "cr_pre"}
@@ -75,7 +98,7 @@ Flush(w) ==
     /\ pc' = [pc EXCEPT ![w] = CASE pc[w] = "pre" -> "flushed"
                                  [] pc[w] = "lin_pre" -> "lin_flushed"
                                  [] OTHER -> "cr_flushed"]
-    /\ UNCHANGED <<side, next, mtx, cur, exists, up, acked, crashes, runs>>
+    /\ UNCHANGED <<side, next, mtx, cur, exists, up, acked, crashes, runs, tseq, tmtx, pump>>
 
 Cache(w) ==
     /\ pc[w] \in {"flushed", "lin_flushed", "cr_flushed"}
@@ -85,7 +108,7 @@ Cache(w) ==
                                  [] OTHER -> "cr_cached"]
     \* the creation frame is published right after its cache append: clients can now name the child
     /\ exists' = IF pc[w] = "cr_flushed" THEN exists \cup {Child} ELSE exists
-    /\ UNCHANGED <<log, next, mtx, cur, up, acked, crashes, runs>>
+    /\ UNCHANGED <<log, next, mtx, cur, up, acked, crashes, runs, tseq, tmtx, pump>>
 
 Fin(w) ==
     /\ pc[w] = "cached"
@@ -93,7 +116,7 @@ Fin(w) ==
     /\ mtx' = IF Guarded THEN None ELSE mtx
     /\ acked' = acked \cup {<<cur[w].t, cur[w].q>>}
     /\ pc' = [pc EXCEPT ![w] = "idle"]
-    /\ UNCHANGED <<log, side, cur, exists, up, crashes, runs>>
+    /\ UNCHANGED <<log, side, cur, exists, up, crashes, runs, tseq, tmtx, pump>>
 
 (* ---- branch / handoff: create_continuity (seq 0, no mutex), then the lineage frame ---- *)
 CreatePre(w) ==
@@ -104,7 +127,7 @@ CreatePre(w) ==
     /\ mtx' = IF LineageLocked THEN w ELSE mtx
     /\ cur' = [cur EXCEPT ![w] = [t |-> Child, q |-> 0]]
     /\ pc' = [pc EXCEPT ![w] = "cr_pre"]
-    /\ UNCHANGED <<log, side, next, exists, up, acked, crashes, runs>>
+    /\ UNCHANGED <<log, side, next, exists, up, acked, crashes, runs, tseq, tmtx, pump>>
 
 \* index save + next := 1, then immediately the lineage frame is prepared with the literal seq 1
 LineagePre(w) ==
@@ -112,7 +135,7 @@ LineagePre(w) ==
     /\ next' = [next EXCEPT ![Child] = 1]
     /\ cur' = [cur EXCEPT ![w] = [t |-> Child, q |-> 1]]
     /\ pc' = [pc EXCEPT ![w] = "lin_pre"]
-    /\ UNCHANGED <<log, side, mtx, exists, up, acked, crashes, runs>>
+    /\ UNCHANGED <<log, side, mtx, exists, up, acked, crashes, runs, tseq, tmtx, pump>>
 
 LineageFin(w) ==
     /\ pc[w] = "lin_cached"
@@ -120,7 +143,7 @@ LineageFin(w) ==
     /\ mtx' = IF LineageLocked THEN None ELSE mtx
     /\ acked' = acked \cup {<<Child, 0>>, <<Child, 1>>}
     /\ pc' = [pc EXCEPT ![w] = "idle"]
-    /\ UNCHANGED <<log, side, cur, exists, up, crashes, runs>>
+    /\ UNCHANGED <<log, side, cur, exists, up, crashes, runs, tseq, tmtx, pump>>
 
 (* ---- session streams: each run threads a private counter through its emits ---- *)
 StartRun(s) ==
@@ -128,13 +151,13 @@ StartRun(s) ==
     /\ (runs[s] = <<>> \/ SecondInput)
     /\ Len(runs[s]) < 2
     /\ runs' = [runs EXCEPT ![s] = Append(@, 0)]
-    /\ UNCHANGED <<log, side, next, mtx, pc, cur, exists, up, acked, crashes>>
+    /\ UNCHANGED <<log, side, next, mtx, pc, cur, exists, up, acked, crashes, tseq, tmtx, pump>>
 
 SessionEmit(s, r) ==
     /\ up /\ Room /\ r \in 1..Len(runs[s]) /\ runs[s][r] < 2
     /\ log' = Append(log, [s |-> s, q |-> runs[s][r]])
     /\ runs' = [runs EXCEPT ![s][r] = @ + 1]
-    /\ UNCHANGED <<side, next, mtx, pc, cur, exists, up, acked, crashes>>
+    /\ UNCHANGED <<side, next, mtx, pc, cur, exists, up, acked, crashes, tseq, tmtx, pump>>
 
 (* ---- crash / restart: memory is lost, files stay ---- *)
 Crash ==
@@ -143,14 +166,34 @@ Crash ==
     /\ pc' = [w \in Writers |-> "idle"]
     /\ next' = [t \in Threads |-> -1]
     /\ runs' = [s \in Sessions |-> IF runs[s] = <<>> THEN <<>> ELSE <<2>>]  \* finished: a restarted authority never resumes a run
+    /\ tmtx' = [k \in Tasks |-> None] /\ pump' = [k \in Tasks |-> [p \in Pumps |-> -1]]
+    /\ tseq' = [k \in Tasks |-> 99]      \* tasks do not survive a restart
     /\ UNCHANGED <<log, side, cur, exists, acked>>
 
-Restart == ~up /\ up' = TRUE /\ UNCHANGED <<log, side, next, mtx, pc, cur, exists, acked, crashes, runs>>
+Restart == ~up /\ up' = TRUE /\ UNCHANGED <<log, side, next, mtx, pc, cur, exists, acked, crashes, runs, tseq, tmtx, pump>>
 
-Next == \/ \E w \in Writers : \/ \E t \in Threads : Pre(w, t)
-                              \/ Flush(w) \/ Cache(w) \/ Fin(w)
+(* ---- task streams: TaskEmitter::emit = lock the task's seq mutex, number the frame, publish,
+        record, append to the log, unlock; the two output pumps of a task share the mutex ---- *)
+PumpNumber(k, p) ==
+    /\ up /\ Room /\ pump[k][p] = -1 /\ tseq[k] < 3
+    /\ (TaskGuarded => tmtx[k] = None)
+    /\ pump' = [pump EXCEPT ![k][p] = tseq[k]]
+    /\ tseq' = [tseq EXCEPT ![k] = @ + 1]
+    /\ tmtx' = IF TaskGuarded THEN [tmtx EXCEPT ![k] = p] ELSE tmtx
+    /\ UNCHANGED <<log, side, next, mtx, pc, cur, exists, up, acked, crashes, runs>>
+
+PumpAppend(k, p) ==
+    /\ up /\ pump[k][p] # -1
+    /\ log' = Append(log, [s |-> k, q |-> pump[k][p]])
+    /\ pump' = [pump EXCEPT ![k][p] = -1]
+    /\ tmtx' = IF TaskGuarded THEN [tmtx EXCEPT ![k] = None] ELSE tmtx
+    /\ UNCHANGED <<side, next, mtx, pc, cur, exists, up, acked, crashes, runs, tseq>>
+
+Next == \/ \E w \in Writers : \/ \E t \in Threads : Pre(w, t) \/ Load(w, t)
+                              \/ PreLoaded(w) \/ Flush(w) \/ Cache(w) \/ Fin(w)
                               \/ CreatePre(w) \/ LineagePre(w) \/ LineageFin(w)
         \/ \E s \in Sessions : StartRun(s) \/ \E r \in 1..2 : SessionEmit(s, r)
+        \/ \E k \in Tasks, p \in Pumps : PumpNumber(k, p) \/ PumpAppend(k, p)
         \/ Crash \/ Restart
 
 Spec == Init /\ [][Next]_vars
@@ -163,7 +206,7 @@ AckedOnce == \A a \in acked :
 IsPrefixOf(a, b) == Len(a) <= Len(b) /\ SubSeq(b, 1, Len(a)) = a
 AppendOnly == [][IsPrefixOf(log, log')]_log                                           \* C02
 TypeOK == /\ mtx \in Writers \cup {None}
-          /\ \A w \in Writers : pc[w] \in {"idle", "pre", "flushed", "cached", "cr_pre", "cr_flushed",
+          /\ \A w \in Writers : pc[w] \in {"idle", "loaded", "pre", "flushed", "cached", "cr_pre", "cr_flushed",
                                             "cr_cached", "lin_pre", "lin_flushed", "lin_cached"}
-MutexHeld == Guarded => \A w \in Writers : pc[w] \in {"pre", "flushed", "cached"} => mtx = w
+MutexHeld == Guarded => \A w \in Writers : pc[w] \in {"loaded", "pre", "flushed", "cached"} => mtx = w
 ====================================================================================
